@@ -382,9 +382,11 @@ def compare(case, obs, val):
     # (a) calls
     sdv = fracs(sdv)
     log = o["log"]
-    plan, ncalls = call_plan(case, draws)
     if len(draws) != n:
-        return {"observable": "number of drawn patients (model)", "actual": len(draws), "expected": n}
+        return {"observable": "uniforms consumed through rng.choice by draw_patients (the model, fed with the recorded "
+                              "stream, could draw only some of the patients)", "actual": len(draws), "expected": n,
+                "statement": "every random choice of draw_patients comes from the rng / seed that was passed (equal seeds give equal tables)"}
+    plan, ncalls = call_plan(case, draws)
     role_p = []
     for i in range(n):
         pv = [fracs(x) for x in pvs[i]]
